@@ -222,8 +222,24 @@ int main(int argc, char** argv) {
                     search.push_back(stdlib);
                 if (job->has("search"))
                     for (auto& s : job->at("search").a) search.push_back((dir / s->s).string());
+                if (job->has("no_stdlib") && job->at("no_stdlib").b && !search.empty() && !stdlib.empty())
+                    search.erase(search.begin());
+                fs::path oldCwd = fs::current_path();
+                if (job->has("cwd"))
+                    fs::current_path(dir / job->at("cwd").s);
                 compiler::ModuleLoader loader(search);
-                auto program = loader.load((dir / entry).string());
+                std::unique_ptr<compiler::Program> program;
+                try {
+                    program = loader.load((dir / entry).string());
+                } catch (...) {
+                    fs::current_path(oldCwd);
+                    throw;
+                }
+                fs::current_path(oldCwd);
+                extra += ",\"funcs\":[";
+                for (size_t fi = 0; fi < program->functions.size(); ++fi)
+                    extra += std::string(fi ? "," : "") + mj::esc(program->functions[fi]->name);
+                extra += "]";
                 compiler::SemanticAnalyser local;
                 compiler::SemanticAnalyser* an = &local;
                 if (job->has("reuse_analyser") && job->at("reuse_analyser").b) {
